@@ -43,9 +43,16 @@ impl<'a> Session<'a> {
     pub fn start(&mut self, c: u8, drv: &str) {
         match guarded(|| MonoMidiReceiver::new(c)) {
             Ok(rx) => {
+                // the power-on controller state (stated nowhere; controller 121 restores it)
+                let c7 = |v: f32| -> i64 { ((v as f64) * 127.0).round().clamp(0.0, 127.0) as i64 };
+                let d = format!(
+                    "[{},{},{},{},{},{},{}]",
+                    c7(rx.mod_wheel()), c7(rx.volume()), c7(rx.vcf_cutoff()), c7(rx.vcf_resonance()),
+                    c7(rx.portamento_time()), rx.portamento_enabled(), rx.sustain_enabled()
+                );
                 self.rx = Some(rx);
                 self.alive = true;
-                self.out.line(&format!("{{\"op\":\"new\",\"c\":{},\"drv\":{}}}", c, jstr(drv)));
+                self.out.line(&format!("{{\"op\":\"new\",\"c\":{},\"drv\":{},\"d\":{}}}", c, jstr(drv), d));
                 self.stats.add("runs", 1);
             }
             Err(m) => {
@@ -811,11 +818,12 @@ pub struct GraphTarget {
     out: Out,
     rx: Option<MonoMidiReceiver>,
     chan: u8,
+    ctl_as_built: bool,
 }
 
 impl GraphTarget {
     pub fn new(chan: u8) -> Self {
-        GraphTarget { out: Out::memory(), rx: None, chan }
+        GraphTarget { out: Out::memory(), rx: None, chan, ctl_as_built: true }
     }
     fn feed(&mut self, b: u8) {
         let rx = self.rx.as_mut().unwrap();
@@ -837,7 +845,19 @@ fn pb_abs(v: f32) -> i64 {
 impl crate::graphrun::Target for GraphTarget {
     fn fresh(&mut self) {
         self.out = Out::memory();
-        self.rx = Some(MonoMidiReceiver::new(self.chan));
+        let rx = MonoMidiReceiver::new(self.chan);
+        // the bounded model starts from (and controller 121 returns to) the power-on controller state of the
+        // code as first pinned; nobody states that state, so if this tree powers on differently the
+        // controller outputs are left to the trace validation (which reads the power-on state off the
+        // new receiver) and the graph replay compares the note / gate / pitch-bend outputs only
+        self.ctl_as_built = cc_abs(rx.mod_wheel()) == 0
+            && cc_abs(rx.volume()) == 0
+            && cc_abs(rx.vcf_cutoff()) == 0
+            && cc_abs(rx.vcf_resonance()) == 0
+            && cc_abs(rx.portamento_time()) == 0
+            && rx.portamento_enabled()
+            && rx.sustain_enabled();
+        self.rx = Some(rx);
         self.out.line(&format!("{{\"op\":\"new\",\"c\":{},\"drv\":\"graph\"}}", self.chan));
     }
     fn apply(&mut self, op: &serde_json::Value, p: &serde_json::Value) -> Vec<String> {
@@ -901,6 +921,9 @@ impl crate::graphrun::Target for GraphTarget {
             ("C18:sustain-switch", rx.sustain_enabled() as i64),
         ];
         for (i, (tag, g)) in got.iter().enumerate() {
+            if i >= 4 && !self.ctl_as_built {
+                continue;
+            }
             let e = &p[i];
             let ev = if e.is_boolean() { e.as_bool().unwrap() as i64 } else { e.as_i64().unwrap() };
             if ev != *g {
